@@ -170,7 +170,6 @@ def bases_create(rng, tier):
             start = r.below(50)
             ids = [(start + 7 * j) % 97 for j in range(n)]          # distinct (97 is prime, n < 97), not in order
             ops.append(create_line(r, ids))
-            live = set(ids)
             for _ in range(r.range(1, 10)):
                 k = r.below(10)
                 if k < 4:
